@@ -3,5 +3,5 @@ package main
 import . "zharness/hz"
 
 func main() {
-	Main(map[string]Runner{"codec": runCodec, "node": runNode})
+	Main(map[string]Runner{"codec": runCodec, "node": runNode, "abicanon": runAbiCanon})
 }
